@@ -29,8 +29,10 @@ def main(fams):
         errs_by_mod = {}
         for e in errors:
             errs_by_mod.setdefault(prepare.module_of_file(e['file']), []).append(e['msg'][:160])
-        ok = [c for c in cands if c['module'] not in failed]
-        bad = [c for c in cands if c['module'] in failed]
+        def built(mod):
+            return os.path.exists(os.path.join(common.LEAN_DIR, '.lake', 'build', 'lib', 'lean', mod.replace('.', '/') + '.olean'))
+        ok = [c for c in cands if c['module'] not in failed and built(c['module'])]
+        bad = [c for c in cands if c not in ok]
         prop = gen_props.FAMILY_PROPERTY[fam]
         path = os.path.join(common.VERIF, 'obligations', prop + '.json')
         try:
